@@ -186,7 +186,59 @@ def long_line_probe(ctx):
                 out.oracle_fail("long-line-probe", inp, f"streaming peak {peak} B with buffer {bs} and line length {w}")
 
 
+def gap_character_stream(ctx, count):
+    """one FastaIndex object streamed several times with DIFFERENT gap characters (FastaStream's `gap_character`), gaps of 0..3 buffer
+    lengths, every buffer size: each output must be the spec with the character asked for — whatever was streamed before"""
+    import io
+    from tola.fasta.index import FastaIndex, FastaInfo
+    from tola.fasta.stream import FastaStream
+    from tola.assembly.assembly import Assembly
+    rng = ctx.rng
+    with F.Scratch() as sc:
+        for i in range(count):
+            recs = F.rand_records(rng, nrec=2, maxlen=120)
+            data = F.render(recs, 60)
+            idx, _ = F.expected_index(recs, 60)
+            bs = rng.choice([1, 2, 3, 5, 7, 16])
+            scs = F.rand_scaffolds_over(rng, recs, zero_strand=0.0, big_gaps=[1, bs, bs + 1, 2 * bs, 3 * bs, 3 * bs + 2])
+            p = sc.path / f"g{i}.fa"; p.write_bytes(data)
+            fai = FastaIndex(p, bs)
+            fai.index = {r[0]: FastaInfo(r[1], r[2], r[3], r[4]) for r in idx}
+            chars = [rng.choice([b"N", b"n", b"X", b"-"]) for _ in range(rng.randint(2, 3))]
+            seqs = {r["name"]: r["seq"] for r in recs}
+            asm = Assembly("x", scaffolds=[conv.to_real_scaffold(s_) for s_ in scs])
+            inp = {"fasta": data.decode("latin-1"), "scaffolds": scs, "bs": bs, "gap_characters_in_order": [c.decode() for c in chars]}
+            ctx.out.case("gap-characters", inp, ("gapchar", bs, len(chars)))
+            try:
+                for ch in chars:
+                    buf = io.BytesIO()
+                    FastaStream(buf, fai, gap_character=ch).write_assembly(asm)
+                    exp = bytearray()
+                    for s_ in scs:
+                        body = bytearray()
+                        for r in s_["rows"]:
+                            if r["t"] == "G":
+                                body += ch * r["len"]
+                            else:
+                                piece = seqs[r["name"]][r["start"] - 1:r["end"]]
+                                body += F.spec_revcomp(piece) if r["strand"] == -1 else piece
+                        exp += b">" + s_["name"].encode() + b"\n"
+                        for k in range(0, len(body), 60):
+                            exp += body[k:k + 60] + b"\n"
+                    if buf.getvalue() != bytes(exp):
+                        ctx.out.oracle_fail("gap-characters", inp, f"stream with gap character {ch!r} (buffer {bs}) differs from the spec: the bytes depend on what was streamed before / on the buffer size")
+                        break
+            except Exception as e:
+                ctx.out.oracle_fail("gap-characters", inp, f"streaming raised {conv.errkind(e)}")
+            finally:
+                try:
+                    fai.fasta_fileandle.close()
+                except Exception:
+                    pass
+
+
 def run(ctx):
+    gap_character_stream(ctx, 400 if ctx.thorough else 60)
     long_line_probe(ctx)
     n = 6 if ctx.thorough else 1
     check(ctx, "buffers", [gen(ctx.rng) for _ in range(120 * n)])
